@@ -31,6 +31,7 @@ LOCK_SITE_UNITS = [
     ("src/scheduler/", "busy_rc", ["u_pool"]), ("src/scheduler/", "also_busy", ["u_pool"]), ("src/scheduler/", "is_busy", ["u_pool"]),
     ("src/scheduler/", "result", ["u_queue", "u_fut"]), ("src/scheduler/", "state", ["u_fut"]), ("src/scheduler/", "0", ["u_queue", "u_fut"]),
     ("src/scheduler/", "ready_mutex", ["u_queue"]), ("src/scheduler/", "is_finished", ["u_queue"]),
+    ("src/scheduler/", None, ["u_queue", "u_pool", "u_fut"]),      # a lock of the scheduler under a name not seen before: not the pipe / Desync wrappers
 ]
 # functions whose lock sites are knowingly outside every contract (listed as unverified in evidence)
 LOCK_PENDING_FNS = []
